@@ -10,8 +10,8 @@ ok, failing, log = vp.coq_build(None, timeout=3400)
 print(log[-2000:])
 if not ok:
     print("coq build failed at", failing); sys.exit(1)
-vp.harness_prepare()
+gm = vp.harness_prepare()
 env = vp.go_env()
-rc, out = vp.sh("go vet -tags verif ./... 2>&1 | tail -5; go test -tags verif -count=1 -run XXX_NONE ./... 2>&1 | tail -30", cwd=vp.HARNESS, env=env, timeout=3000)
+rc, out = vp.sh("go test -modfile=%s -tags verif -count=1 -run XXX_NONE ./... 2>&1 | tail -30" % gm, cwd=vp.HARNESS, env=env, timeout=3000)
 print(out)
 PY
